@@ -368,6 +368,7 @@ type violationRec struct {
 	Seed       uint64         `json:"worker_seed"`
 	Start      uint64         `json:"worker_start"`
 	Stride     uint64         `json:"worker_stride"`
+	Procs      int            `json:"worker_gomaxprocs"`
 }
 
 type summaryRec struct {
@@ -787,6 +788,9 @@ func (a *aggregate) addHashes(path string) {
 	}
 }
 
+// gomaxprocsKnob is cycled over the worker processes of a batch.
+var gomaxprocsKnob = []int{16, 1, 2, 40, 16, 3, 64, 256, 16, 5, 16, 33, 128, 16, 7, 16}
+
 // runBatch fans one seed's runs out over nw plain worker processes (worker w
 // executes run indices ≡ w mod nw) and, for C20, over short-lived race worker
 // processes.
@@ -806,7 +810,9 @@ func runBatch(sc *scratch, id, tier string, seed uint64, nruns, nrace int64, nw 
 				defer wg.Done()
 				out := filepath.Join(sc.dir, fmt.Sprintf("b%d-w%d.jsonl", batchIdx, w))
 				hf := filepath.Join(sc.dir, fmt.Sprintf("b%d-h%d.bin", batchIdx, w))
-				res := runWorker(sc.worker, nil, deadline+2*time.Minute, 16<<20,
+				// environment knob: the number of Ps the worker process runs with (a
+				// library may consult runtime.GOMAXPROCS to size its own parallelism)
+				res := runWorker(sc.worker, []string{fmt.Sprintf("GOMAXPROCS=%d", gomaxprocsKnob[w%len(gomaxprocsKnob)])}, deadline+2*time.Minute, 16<<20,
 					"batch", "-prop", id, "-seed", fmt.Sprint(seed), "-tier", tier,
 					"-start", fmt.Sprint(w), "-stride", fmt.Sprint(nw), "-n", fmt.Sprint(nruns),
 					"-out", out, "-hashes", hf, "-deadline", workerDeadline.String())
@@ -995,7 +1001,11 @@ func writeReplay(sc *scratch, id, tier string, v *violationRec) string {
 	check := func() bool {
 		// a changed library may carry a nondeterminism source the simulator does not
 		// own (sync.Pool, for one, behaves per-P): the second attempt pins GOMAXPROCS=1
-		for _, extra := range [][]string{nil, {"GOMAXPROCS=1"}} {
+		first := []string(nil)
+		if v.Procs > 0 {
+			first = []string{fmt.Sprintf("GOMAXPROCS=%d", v.Procs)} // the knob the worker ran with
+		}
+		for _, extra := range [][]string{first, {"GOMAXPROCS=1"}} {
 			for t := 0; t < tries; t++ {
 				outp := filepath.Join(sc.dir, "replay-result.json")
 				res := runWorker(bin, append(append([]string(nil), env...), extra...), 5*time.Minute, 16<<20, "replay", "-file", path, "-out", outp)
@@ -1321,6 +1331,13 @@ func cmdSelftest(args []string) int {
 	// lint: the harness and the kernel never range over a map except to sort keys, and never use sync.Map
 	if out, _ := run(verifDir, os.Environ(), "grep", "-rn", "--include=*.go", "-E", `\.Range\(func|sync\.Map`, "harness", "simhook"); strings.TrimSpace(out) != "" {
 		fmt.Printf("lint: sync.Map / .Range( found:\n%s\n", out)
+		return 1
+	}
+	// lint: no function literals in the kernel's //go:norace files (a func literal
+	// inside a //go:norace function is a separate, instrumented function: its
+	// accesses to scheduler state would be reported as races between tasks)
+	if out, _ := run(verifDir, os.Environ(), "grep", "-n", "-E", `(:=|=|go|defer|\(|,)\s*func\(`, "simhook/sched.go", "simhook/tape.go", "simhook/baton_race.go"); strings.TrimSpace(out) != "" {
+		fmt.Printf("lint: function literal in a //go:norace kernel file:\n%s\n", out)
 		return 1
 	}
 	wantRace := false
